@@ -14,6 +14,7 @@ def image_shapes():
     out = []
     for k in ('ImageExtension', 'ImageIntension'):
         out += [('image/%s/first-of-two' % k, ('Term', (k, 1, [a, P, b]))), ('image/%s/lead' % k, ('Term', (k, 0, [P, a]))), ('image/%s/trail' % k, ('Term', (k, 2, [a, b, P]))),
+                ('image/%s/last' % k, ('Term', (k, 2, [a, b]))), ('image/%s/last-of-one' % k, ('Term', (k, 1, [a]))), ('image/%s/last-nested' % k, ('Term', (k, 2, [a, (k, 1, [b])]))),
                 ('image/%s/only-placeholders' % k, ('Term', (k, 0, [P]))), ('image/%s/three' % k, ('Term', (k, 1, [a, P, P]))),
                 ('image/%s/nested' % k, ('Term', ('Inheritance', ('Product', [a]), (k, 0, [b, P]))))]
     return out
